@@ -2,6 +2,7 @@
 mod conn;
 mod cdial;
 mod dialplan;
+mod addrbook;
 mod notify;
 mod proto;
 
@@ -12,6 +13,7 @@ fn main() {
         "dialplan" => dialplan::main(&a),
         "cdial" => cdial::main(&a),
         "notify" => notify::main(&a),
+        "addr" => addrbook::main(&a),
         "proto" => proto::main(&a),
         m => {
             eprintln!("unknown mode {m}");
